@@ -5,6 +5,7 @@
 -/
 import PycommProofs.SlcDrvBasic
 import PycommProofs.LDReadSend
+import PycommProofs.LDReadReply
 namespace Pycomm.Slc.Drv
 open Pycomm Pycomm.Tgt Pycomm.Path Pycomm.Encap Pycomm.Slc Pycomm.Lgx.Drv
 
@@ -124,6 +125,18 @@ theorem sdr_targetWrite_codes (tbl : Table) (req : Bytes) (e : Nat) (h : targetW
             · injection h with h; exact .inr h.symm
             · cases h
 
+/-- the repaired driver judges the reply by its status words first (`if not response`): a reply the reference target
+    frames with encapsulation status 0 around an Execute-PCCC reply with general status 0 is a valid response,
+    whatever the PCCC STS byte and data inside -/
+theorem sdr_replyRefused_ok (sess : Nat) (ctx : Bytes) (toId seq : Nat) (rid tns : Bytes) (sts : Nat) (data : Bytes)
+    (hc : ctx.length = 8) :
+    replyRefused (sdr_rawReply sess ctx toId seq (sdr_pcccReply rid tns sts data)) = .ok none := by
+  have hv : Reply.validCip .connected (Reply.parseCip (some (sdr_rawReply sess ctx toId seq
+      (sdr_pcccReply rid tns sts data))) .connected) = true :=
+    (ldr_tagResp_ok 0x4B sess toId seq ctx (rid ++ [UInt8.ofNat (0x0F + 0x40), UInt8.ofNat sts] ++ tns ++ data) hc).1
+  unfold replyRefused
+  simp only [hv, if_true]
+
 /-- `_read_tag` of an accepted address whose request can be built, on the healthy connection: the transaction id and
     the sequence count are the next two values of the counter, one frame is written, the Tag is what the data table's
     answer to `targetRead` of the address fields decodes to (value, or the PCCC error text), the target's state
@@ -163,7 +176,7 @@ theorem sdr_readTag (w : Cli.World Ext) (sess : Nat) (cidb : Bytes) (conn : Conn
   · unfold readTag
     simp only [hparse, sdr_readMsg a _ fields (ldr_nextSeq_lt w.drv) hf]
     rw [hmsg]
-    simp only [hsend]
+    simp only [hsend, sdr_replyRefused_ok _ _ _ _ _ _ _ _ hH.ctx8]
     congr 2
     -- the Tag made of the raw reply
     unfold readTagOf sdr_readTagOf
@@ -248,7 +261,7 @@ theorem sdr_writeTag (w : Cli.World Ext) (sess : Nat) (cidb : Bytes) (conn : Con
   simp only [hparse, sdr_writeValue a v hnb hnd, hwv, sdr_writeMsg_eq a _ v hnb,
     sdr_writeMsg a _ v val fields sz (ldr_nextSeq_lt w.drv) hwv hf]
   rw [hmsg]
-  simp only [hsend]
+  simp only [hsend, sdr_replyRefused_ok _ _ _ _ _ _ _ _ hH.ctx8]
   congr 2
   unfold writeTagOf sdr_writeTagOf
   cases hres : targetWrite tbl (fields ++ val) with
